@@ -29,6 +29,12 @@ def _job_request(job):
     return cb.run_request(job)
 
 
+def _job_f19(seed):
+    from harness import controlb as cb
+
+    return cb.job_f19(seed)
+
+
 def _job_diff(job):
     from harness import controlb as cb
 
@@ -174,6 +180,8 @@ def c12(tier, seed):
               name="F17 demo (a margin run leaves its columns in the caller's frame; the next run on that frame keeps the turnout as weights)")
     common.mc(run, "MC_ClientHistory", "MC_ClientHistory_demo_feed.cfg", expect_violation="Functional", workers=2, timeout=300,
               name="demo: derived results columns written into the caller's feed frame make a later turnout run differ (FeedCopied = FALSE)")
+    common.mc(run, "MC_ClientHistory", "MC_ClientHistory_demo_F19.cfg", expect_violation="Functional", workers=2, timeout=300,
+              name="F19 demo (open finding): the outlier models read the margin column an earlier margin run left in the caller's baseline frame")
     common.mc(run, "MC_ClientHistory", "MC_ClientHistory_demo_summary.cfg", expect_violation="Functional", workers=4, timeout=300,
               name="design mutant demo: the weight-dependent part of the national summary kept on the model object")
     if not quick:
@@ -334,6 +342,19 @@ def c12(tier, seed):
         raise tlc.MachineryError(f"{len(raised)} calls of the real client raised, e.g. {raised[:3]}")
     run.sample({"history": results[0]["runs"][0]["hist"], "tokens": [o["tok"] for o in results[0]["runs"][0]["obs"]], "leg": results[0]["hash"]})
     run.sample({"trace_head": traces[0]["events"][:5]})
+    # open finding F19 (ClientHistory switch OutlierColumnsOwn): the histories above run with the outlier models off; here
+    # the same turnout request with the DEFAULT outlier models, on a fresh baseline frame and on the frame object an
+    # earlier margin run was handed.  A difference is the listed finding (KNOWN-FINDING), anything else about these
+    # runs (an exception, a difference without the margin column having been left behind) is not.
+    for r in common.pool().map(_job_f19, [11, 12, 15] if quick else list(range(6, 30)), chunksize=1):
+        run.cov["scenarios_replayed_into_impl"] += 1
+        if r["differs"]:
+            left = "baseline_normalized_margin" in r["columns_left_in_the_callers_frame"]
+            run.violation("equal_arguments_differ_after_a_margin_run_on_the_same_baseline_frame",
+                          {"clause": "equal_arguments_differ_after_a_margin_run_on_the_same_baseline_frame", "outlier_models_on": True,
+                           "earlier_run": "margin" if left else "margin (no column left behind)"}, r)
+        else:
+            run.witness("shared_baseline_frame_with_outlier_models_agrees")
     run.finish(
         require_witnesses=[
             "repeat_same_client", "repeat_fresh_client", "a_b_a", "default_args_before_and_after_own_lists", "other_estimator_in_between",
